@@ -874,6 +874,38 @@ def text_tables_lean(T):
     return "\n".join(out) + "\n"
 
 
+def derive_start_clock_branch(fns):
+    """the AM/PM decision of `_write_times` (START CLOCKTIME): `if hrs <op> <bound>:` with, per arm, the suffix written
+    and what is subtracted from the hours -> (op code 0 '<' 1 '<=' 2 '>' 3 '>=', bound, then-arm is AM, then-arm subtracts, else-arm subtracts)"""
+    fn = fns["_write_times"]
+    for n in ast.walk(fn):
+        if not (isinstance(n, ast.If) and isinstance(n.test, ast.Compare) and len(n.test.ops) == 1 and isinstance(n.test.left, ast.Name)
+                and n.test.left.id == "hrs" and isinstance(n.test.comparators[0], ast.Constant)):
+            continue
+        ops = {ast.Lt: 0, ast.LtE: 1, ast.Gt: 2, ast.GtE: 3}
+        if type(n.test.ops[0]) not in ops:
+            raise BrokenTie("_write_times: AM/PM test uses an operator the model does not know: %s" % ast.unparse(n.test))
+
+        def arm(body):
+            suf, sub = None, 0
+            for st in body:
+                if isinstance(st, ast.Assign) and isinstance(st.targets[0], ast.Name) and st.targets[0].id == "time_format" and isinstance(st.value, ast.Constant):
+                    suf = st.value.value.strip().upper()
+                elif isinstance(st, ast.AugAssign) and isinstance(st.target, ast.Name) and st.target.id == "hrs" and isinstance(st.op, ast.Sub) \
+                        and isinstance(st.value, ast.Constant):
+                    sub = int(st.value.value)
+                else:
+                    raise BrokenTie("_write_times: statement in the AM/PM branch the model does not know: %s" % ast.unparse(st))
+            if suf not in ("AM", "PM"):
+                raise BrokenTie("_write_times: an arm of the AM/PM branch does not set time_format to AM / PM")
+            return suf, sub
+        (s1, d1), (s2, d2) = arm(n.body), arm(n.orelse)
+        if s1 == s2:
+            raise BrokenTie("_write_times: both arms of the AM/PM branch write %s" % s1)
+        return (ops[type(n.test.ops[0])], int(n.test.comparators[0].value), s1 == "AM", d1, d2)
+    raise BrokenTie("_write_times: no `if hrs <op> <n>:` AM/PM branch found")
+
+
 def read_sections_and_order(path=None):
     """`_INP_SECTIONS` and the order in which `InpFile.read` calls the section readers (ast)"""
     tree = ast.parse(open(path or os.path.join(vlib.REPO, "wntr", "epanet", "io.py")).read())
@@ -1373,6 +1405,9 @@ def gen_schema_inp_lean(wntr, rows, kw):
     out.append("/-- the hand-written expectation (harness/props/c12.py ORDER_SENSITIVE) -/\ndef orderSensitiveExpected : List String := %s\n" % _ll(ORDER_SENSITIVE))
     out.append("/-- the special cases of `_read_times` (ast): (index of the word tested, word, attribute); every other line sets `<w0>_<w1>` -/")
     out.append("def timesDispatch : List (Nat × String × String) := [%s]\n" % ", ".join("(%d, %s, %s)" % (i, _ls(w), _ls(a)) for i, w, a in derive_times_dispatch(FNS_CACHE["fns"])))
+    b = derive_start_clock_branch(FNS_CACHE["fns"])
+    out.append("/-- the AM/PM branch of `_write_times` (ast): (operator 0 `<` 1 `<=` 2 `>` 3 `>=`, bound, the then-arm writes AM, hours subtracted in the then-arm, in the else-arm) -/")
+    out.append("def startClockBranch : Nat × Int × Bool × Int × Int := (%d, %d, %s, %d, %d)\n" % (b[0], b[1], "true" if b[2] else "false", b[3], b[4]))
     out.append(text_tables_lean(read_text_tables()))
     od = wntr.network.WaterNetworkModel().options.to_dict()
     out.append("/-- keys of `Options.to_dict()` per group (reflection) -/")
@@ -1892,6 +1927,10 @@ def directed_specs():
         for k in (1, 2):
             sp["valves"].append({"name": "G%d" % k, "a": "J1", "b": "J2", "diam": 0.2, "type": "GPV", "mloss": 0.0, "setting": "GC", "status": "ACTIVE", "vertices": []})
     mk("shared-curves", shared)
+    # every clock-time field at the AM/PM boundaries of the day (START CLOCKTIME, a CLOCKTIME control, a SYSTEM CLOCKTIME premise)
+    for t in (0, 11 * 3600 + 3599, 43200, 45000, 12 * 3600 + 3599, 46800, 86399):
+        mk("clock-%d" % t, lambda sp, t=t: (sp["options"].update(time={"start_clocktime": t}),
+                                            sp["controls"].extend([ctl(["clock", "=", t]), rule(["clock", ">=", t], "rc")])))
     return out
 
 
@@ -2118,7 +2157,7 @@ class C12(Check):
             yield ("directed:" + label, sp, None, None)
         n = 40 if ctx.quick else 150
         for i in range(n):
-            yield ("gen%d" % i, G.gen_spec(ctx.rng, size=1 if i % 3 else 2, inp_only=True, share_curves=True, control_attrs=True), None, None)
+            yield ("gen%d" % i, G.gen_spec(ctx.rng, size=1 if i % 3 else 2, inp_only=True, share_curves=True, control_attrs=True, clock_boundaries=True), None, None)
 
     def correspondence(self, ctx):
         wntr = vlib.import_wntr()
@@ -2523,7 +2562,7 @@ class C12(Check):
         try:
             with warnings.catch_warnings():
                 warnings.simplefilter("ignore")
-                specs = directed_specs() + [("wide%d" % i, G.gen_spec(ctx.rng, size=2, inp_only=True, share_curves=True, control_attrs=True)) for i in range(6 if ctx.quick else 25)]
+                specs = directed_specs() + [("wide%d" % i, G.gen_spec(ctx.rng, size=2, inp_only=True, share_curves=True, control_attrs=True, clock_boundaries=True)) for i in range(6 if ctx.quick else 25)]
                 for label, sp in specs:
                     wn = G.realise(wntr, sp)
                     for u in UNITS:
